@@ -19,9 +19,13 @@ import (
 )
 
 const repoDir = "/repo"
+
+// activeRepoDir is the tree the current command works on (--dir; /repo by default).
+var activeRepoDir = repoDir
 const contractFileName = "zz_contracts_verif.go"
 
 func loadProgram(dir string) (*Verifier, error) {
+	activeRepoDir = dir
 	env := append(os.Environ(), "GOFLAGS=-mod=mod", "GOPROXY=off", "GOSUMDB=off", "GOTOOLCHAIN=local")
 	cfg := &packages.Config{
 		Mode:       packages.LoadAllSyntax,
